@@ -204,6 +204,34 @@ def base_routes():
     return r
 
 
+def model_int_routes():
+    """Integer-valued model content written as int or float literals / numpy integers."""
+    r = {}
+    r['float literals'] = lambda: mk_model(params={'K': 2.0, 'n_m': 3.0}, prange=(1.0, 4.0), lrange=(1.0, 2.0), rmse=0.0)
+    r['int parameters'] = lambda: mk_model(params={'K': 2, 'n_m': 3}, prange=(1.0, 4.0), lrange=(1.0, 2.0), rmse=0.0)
+    r['numpy int parameters'] = lambda: mk_model(params={'K': numpy.int64(2), 'n_m': numpy.int32(3)}, prange=(1.0, 4.0), lrange=(1.0, 2.0), rmse=0.0)
+    r['int ranges'] = lambda: mk_model(params={'K': 2.0, 'n_m': 3.0}, prange=(1, 4), lrange=(1, 2), rmse=0.0)
+    r['int rmse'] = lambda: mk_model(params={'K': 2.0, 'n_m': 3.0}, prange=(1.0, 4.0), lrange=(1.0, 2.0), rmse=0)
+    r['numpy float ranges'] = lambda: mk_model(params={'K': 2.0, 'n_m': 3.0}, prange=numpy.array([1.0, 4.0]), lrange=(numpy.float64(1.0), numpy.float32(2.0)), rmse=0.0)
+    return r
+
+
+def zero_routes():
+    """Zeros in the data: +0.0, -0.0 and values that round to zero at 8 decimals from either side are one and the same content."""
+    import pygaps
+    k = kw()
+    r = {}
+    def mkz(z1, z2):
+        return lambda: pygaps.PointIsotherm(pressure=[z1, 1.0, 2.0, 3.0], loading=[z2, 0.5, 1.0, 1.25], **k)
+    r['+0.0'] = mkz(0.0, 0.0)
+    r['-0.0'] = mkz(-0.0, -0.0)
+    r['int 0'] = mkz(0, 0)
+    r['+1e-10'] = mkz(1e-10, 2e-10)
+    r['-1e-10 (loading)'] = mkz(0.0, -1e-10)
+    r['mixed signs'] = mkz(-0.0, 3e-9)
+    return r
+
+
 def model_routes():
     import pygaps
     r = {}
@@ -288,7 +316,8 @@ def run(ctx):
     ev = nt = 0
     # ---- insensitivity
     groups = [('simple', simple_routes(), 'list[float]'), ('decimal', decimal_routes(), 'list[float]'),
-              ('decimal extra column', decimal_extra_routes(), 'extra column float64'), ('point', point_routes(), 'reference'), ('base', base_routes(), 'reference'),
+              ('decimal extra column', decimal_extra_routes(), 'extra column float64'), ('zeros', zero_routes(), '+0.0'),
+              ('model with integer-valued content', model_int_routes(), 'float literals'), ('point', point_routes(), 'reference'), ('base', base_routes(), 'reference'),
               ('model', model_routes(), 'reference'), ('fitted model', fitted_routes(), 'list[float]')]
     ids_ref = {}
     for gname, routes, refname in groups:
